@@ -376,12 +376,14 @@ func run(c *core.Ctx) {
 		}
 	}
 	// large-magnitude boxes (tolerance proportional to magnitude)
-	for i, scale := range []float64{1e6, 1e-6, 3e9} {
+	for i, scale := range []float64{1e6, 1e-6, 3e9, 0x1p-40, 0x1p40, 1e-12, 1e12, 1e-3} {
 		if !mine() {
 			continue
 		}
 		k.aabbScaled(scale, Case{Kind: "aabb-scaled", I: i})
 	}
+	// --- magnitude and size ladders (ladders.go) ---
+	k.runLadders(mine)
 }
 
 func (k checker) rotate(q quat, v V3) {
@@ -840,6 +842,12 @@ func replay(c *core.Ctx) {
 		k.detProduct(a16(cs.A), a16(cs.B))
 	case "identity":
 		k.identityLaws(a16(cs.A), 0)
+	case "inv-scaled":
+		k.matInvScaled(a16(cs.A), cs.B[0], cs.Cl)
+	case "maps-scaled":
+		k.pointMapsScaled(ladderRots()[cs.I], a3(cs.A), a3(cs.B), cs.C[0], cs.I)
+	case "size":
+		k.sizeCase(cs.I)
 	default:
 		// index-addressed families: re-run the whole (cheap) enumeration and keep only matching cases
 		sub := core.NewCtx(c.Property, c.Tier, 0, 1, 0, 0)
